@@ -33,6 +33,7 @@ ScOf(j) == [single   |-> [n \in Node |-> ToSet(j.single[n])],
             procs    |-> [p \in 1..Len(j.procs) |-> j.procs[p]],
             mode     |-> [n \in Node |-> j.mode[n]],
             rorder   |-> [i \in 1..Len(j.rorder) |-> j.rorder[i]],
+            ilook    |-> [n \in Node |-> j.ilook[n]],
             sparse   |-> j.sparse]
 
 ZeroCnt == [c \in Callbacks |-> 0]
